@@ -245,6 +245,7 @@ pub enum WCall {
     Erase(u32),
     SetPing(Option<u64>),
     SetPingresp(u64),
+    SetAuto(u8, bool),
     Crash(ExportMangle),
     /// from here on the protocol model is off (adversarial input follows)
     Lenient,
